@@ -2,6 +2,9 @@
 import hashlib
 
 
+_FLAGS = {"object_state": True}
+
+
 def _h(b):
     return hashlib.blake2b(b, digest_size=10).hexdigest()
 
@@ -41,10 +44,17 @@ def fingerprint(x, depth=0):
     if callable(x):
         return f"callable:{getattr(x, '__qualname__', type(x).__name__)}"
     d = getattr(x, "__dict__", None)
-    if isinstance(d, dict):
+    if isinstance(d, dict) and _FLAGS["object_state"]:
         return f"obj:{type(x).__name__}" + fingerprint({k: v for k, v in d.items() if not k.startswith('_vmon')}, depth + 1)
     return f"obj:{type(x).__name__}"
 
 
 def fp_args(args, kwargs):
-    return [fingerprint(a) for a in args] + [(k, fingerprint(v)) for k, v in sorted(kwargs.items())]
+    """Fingerprints for the argument-purity monitor: lists, tuples, sets, arrays, Series, tables, option dictionaries (recursively).
+    Other objects handed to a call (metric objects, axes, callables) are identified by type only: their internal state - a lazily
+    built scorer, a cache - is not among the things the property says a call leaves untouched."""
+    _FLAGS["object_state"] = False
+    try:
+        return [fingerprint(a) for a in args] + [(k, fingerprint(v)) for k, v in sorted(kwargs.items())]
+    finally:
+        _FLAGS["object_state"] = True
